@@ -16,7 +16,19 @@ def _uniform(dims, spacing, origin, rev, inc, cells, order="F"):
 def _grid(ctx, tag, dims, geom, allow_unstructured=True):
     """geom: 'A' (reference geometry) or 'B' (shifted, coarser: generic position, no distance ties)"""
     d = len(dims)
-    kind = ["uniform", "unstructured", "points"][ctx.choice(tag + "_kind", 3 if allow_unstructured else 1)]
+    kinds = ["uniform", "unstructured", "points"] + (["mixed"] if d == 2 else [])
+    kind = kinds[ctx.choice(tag + "_kind", len(kinds) if allow_unstructured else 1)]
+    if kind == "mixed":
+        # mesh of two quads and a triangle (cell array padded with -1), data on cells; the expected data locations
+        # are computed here as the mean of each cell's nodes, not taken from the grid
+        shift = np.array([0.0, 0.0]) if geom == "A" else np.array([0.37, 0.29])
+        pts = np.array([[10.0, 20.0], [11.0, 20.0], [12.0, 20.5], [10.0, 22.0], [11.0, 22.3], [12.2, 22.0],
+                        [13.0, 21.0]]) + shift
+        cells = np.array([[0, 1, 4, 3], [1, 2, 4, -1], [2, 6, 5, 4]])
+        types = [fm.CellType.QUAD, fm.CellType.TRI, fm.CellType.QUAD]
+        g = fm.UnstructuredGrid(pts, cells, types, data_location=Location.CELLS)
+        centres = np.array([pts[[i for i in c if i >= 0]].mean(axis=0) for c in cells])
+        return g, "mixed:c", centres
     cells = ctx.flag(tag + "_cells") if kind != "points" else False
     if geom == "A":
         sp, org, dm = (1.0, 2.0, 0.5)[:d], (10.0, 20.0, 30.0)[:d], tuple(dims)
@@ -27,12 +39,13 @@ def _grid(ctx, tag, dims, geom, allow_unstructured=True):
         rev = ctx.flag(tag + "_rev")
         inc = [ctx.flag(f"{tag}_inc{i}") for i in range(d)]
         order = "C" if ctx.flag(tag + "_orderC") else "F"
-        return _uniform(dm, sp, org, rev, inc, cells, order), f"uniform:rev={rev}:inc={inc}:{order}:{'c' if cells else 'p'}"
+        return (_uniform(dm, sp, org, rev, inc, cells, order),
+                f"uniform:rev={rev}:inc={inc}:{order}:{'c' if cells else 'p'}", None)
     base = _uniform(dm, sp, org, False, [True] * d, cells)
     if kind == "unstructured":
-        return base.to_unstructured(), f"unstructured:{'c' if cells else 'p'}"
+        return base.to_unstructured(), f"unstructured:{'c' if cells else 'p'}", None
     pts = np.atleast_2d(base.points)[::-1].copy()  # another enumeration of the same point set
-    return fm.UnstructuredPoints(pts), "points"
+    return fm.UnstructuredPoints(pts), "points", None
 
 
 def _flat_to_multi(k, shape, order):
@@ -43,9 +56,9 @@ def h_nearest(ctx):
     dims = tuple(ctx.params["dims"])
     same_geometry = ctx.params.get("same_geometry", False)
     hlib.reset_finam_state()
-    src, s_sig = _grid(ctx, "s", dims, "A")
-    tgt, t_sig = _grid(ctx, "t", dims, "A" if same_geometry else "B",
-                       allow_unstructured=not same_geometry)
+    src, s_sig, s_pts = _grid(ctx, "s", dims, "A")
+    tgt, t_sig, t_pts = _grid(ctx, "t", dims, "A" if same_geometry else "B",
+                              allow_unstructured=not same_geometry)
     if same_geometry and src.data_location != tgt.data_location:
         ctx.cut("identity needs the same data location")
     sshape, tshape = tuple(src.data_shape), tuple(tgt.data_shape)
@@ -75,8 +88,8 @@ def h_nearest(ctx):
     dm = d.magnitude
     got = np.asarray(np.ma.getdata(dm), dtype=object)[0]
     gmask = np.ma.getmaskarray(dm)[0] if np.ma.isMaskedArray(dm) else np.zeros(tshape, bool)
-    P = np.atleast_2d(src.data_points)
-    Q = np.atleast_2d(tgt.data_points)
+    P = np.atleast_2d(src.data_points) if s_pts is None else s_pts
+    Q = np.atleast_2d(tgt.data_points) if t_pts is None else t_pts
     src_idx = [_flat_to_multi(k, sshape, src.order) for k in range(ns)]
     unmasked_src = [k for k in range(ns) if not SM[src_idx[k]]]
     for j in range(nt):
@@ -103,7 +116,8 @@ EXPLANATION = (
     "claimed. What is checked: the real RegridNearest adapter (_get_info, _update_grid_specs, _get_in_coords/_get_out_coords, "
     "_get_data, to_compressed/from_compressed index plumbing) between a real Output and Input, with SYMBOLIC payload "
     "values in object arrays, over an engine-directed case split of source/target grid kind (uniform in every layout and "
-    "order, unstructured cells, unstructured points), data location, and source/target masks. Oracle: brute-force "
+    "order, unstructured cells, unstructured points, a mixed triangle/quad mesh whose cell centres the harness computes "
+    "itself), data location, and source/target masks. Oracle: brute-force "
     "Euclidean nearest unmasked source location per unmasked target location from the grids' own data_points; z3 must "
     "refute delivered[j] ≠ X[i*] for all values (any of the nearest on ties); masked target cells stay masked; the "
     "'same geometry, different layout' families are the identity clause."
